@@ -191,6 +191,9 @@ Definition set_data_term (nrows : nat) (t : tterm) (s : spans_arg) : res dterm :
       | [d] => Ok (DT name (kind_string (tc_kind (dc_t d))) ds (dc_rows d) (dc_labels d))
       | d :: rest =>
           do labs <- mapM (fun x => match dc_labels x with Some l => Ok l | None => Err EType end) ds;
+          (* get_interaction_matrix ends in np.column_stack(l): an empty product (a component with
+             no column, e.g. a one-level factor under reduced coding) raises ValueError *)
+          if existsb (fun l => match l with [] => true | _ => false end) labs then Err EValue else
           Ok (DT name "interaction" ds
                  (fold_left rows_kron (map dc_rows rest) (dc_rows d))
                  (Some (label_product labs ":")))
